@@ -130,8 +130,8 @@ impl Monitor for C16e {
             cram_compat,
             cli_combine: rng.pick(&["", "", "combine", "no-combine"]).to_string(),
             cli_crlf: rng.pick(&["", "", "keep", "no-keep"]).to_string(),
-            cli_timeout_s: if rng.chance(1, 3) { Some(*rng.pick(&[60u64, 120, 1000])) } else { None },
-            doc_timeout_s: if md && rng.chance(1, 2) { Some(*rng.pick(&[90u64, 300, 2000])) } else { None },
+            cli_timeout_s: if rng.chance(1, 3) { Some(*rng.pick(&[60u64, 120, 1000, 0, 0])) } else { None },
+            doc_timeout_s: if md && rng.chance(1, 2) { Some(*rng.pick(&[90u64, 300, 2000, 0])) } else { None },
             defaults: if md && rng.chance(2, 3) { gen_layer(rng, "d") } else { Layer::default() },
             // --cram-compat runs the document as one script, which requires one configuration for all tests
             tests: (0..n).map(|i| if md && !cram_compat && rng.chance(2, 3) { gen_layer(rng, &format!("t{i}")) } else { Layer::default() }).collect(),
